@@ -188,14 +188,21 @@ func (r *run) direct() {
 	r.checkSelf(obj(nil), cty.EmptyObject, true)
 	r.checkSelf(obj(nil), cty.Object(nil), true)
 	r.checkSelf(m.TupleOf(), cty.Tuple(nil), true)
-	// a capsule type outside the model still refuses to marshal, at top level and inside
+	// capsule types outside the model through the unary observers that do not need the model:
+	// no placeholder inside, stripping gives an Equal type back (nothing else changes)
 	for _, ty := range []cty.Type{sameName, cty.Map(sameNative), cty.ObjectWithOptionalAttrs(map[string]cty.Type{"a": sameName}, []string{"a"})} {
-		var err error
-		o := core.Guard(func() { _, err = ty.MarshalJSON() })
-		c.Eval(1)
+		var hd, eqStrip, eqTwice bool
+		o := core.Guard(func() {
+			hd = ty.HasDynamicTypes()
+			s := ty.WithoutOptionalAttributesDeep()
+			eqStrip = s.Equals(ty.WithoutOptionalAttributesDeep()) && len(ty.TestConformance(s)) == 0 && len(s.TestConformance(ty)) == 0
+			eqTwice = s.WithoutOptionalAttributesDeep().Equals(s)
+		})
+		c.Eval(8)
 		r.bump("corpus:direct-assertions")
-		if o.Panicked || err == nil {
-			c.Violate("Type.MarshalJSON", "type containing a capsule marshalled without error", "corpus:extra capsule", fmt.Sprintf("%#v", ty), o.PanicMsg)
+		if o.Panicked || hd || !eqStrip || !eqTwice {
+			c.Violate("Type.WithoutOptionalAttributesDeep", "corpus assertion failed", "corpus:extra capsule", fmt.Sprintf("%#v", ty),
+				fmt.Sprintf("HasDynamicTypes=%v strip-stable=%v idempotent=%v %s", hd, eqStrip, eqTwice, o.PanicMsg))
 		}
 	}
 }
